@@ -37,6 +37,8 @@ const DONE: u32 = 2;
 const CANCELLED: u32 = 3;
 
 struct Host {
+    /// unique first bytes: see mock_task::Globals
+    magic: u64,
     handle: u32,
     started: u32,
     start_cancelled: u32,
@@ -53,6 +55,7 @@ struct Host {
 }
 
 static mut H: Host = Host {
+    magic: 0x6331_385f_686f_7374,
     handle: 0,
     started: 0,
     start_cancelled: 0,
@@ -106,7 +109,7 @@ unsafe impl WaitableOp for Op {
             let h: u32 = kani::any();
             kani::assume(h >= 1 && h < (1 << 28));
             H.handle = h;
-            mt::EXPECT_WAITABLE = h;
+            mt::G.expect_waitable = h;
             let code: u32 = kani::any();
             kani::assume(code == PENDING || code == PROGRESS || code == DONE);
             host_code(code);
@@ -196,7 +199,7 @@ unsafe fn host_event() {
 }
 
 unsafe fn step_poll(op: Pin<&mut Wo>, cx: &mut Context<'_>, cur: usize) -> Option<u32> {
-    let task = mt::CUR;
+    let task = mt::G.cur;
     let r = match op.poll_complete(cx) {
         Poll::Ready(r) => Some(r),
         Poll::Pending => {
@@ -206,7 +209,7 @@ unsafe fn step_poll(op: Pin<&mut Wo>, cx: &mut Context<'_>, cur: usize) -> Optio
             None
         }
     };
-    assert!(mt::CUR == task, "wasip3_task_set cell not restored");
+    assert!(mt::G.cur == task, "wasip3_task_set cell not restored");
     r
 }
 
@@ -226,12 +229,12 @@ macro_rules! steps {
     };
     ($op:ident, $cx:ident, $tasks:ident, $cur:ident, $res:ident, $cancel:ident; A $($rest:tt)*) => {
         $cur = 0;
-        mt::CUR = $tasks[0];
+        mt::G.cur = $tasks[0];
         steps!($op, $cx, $tasks, $cur, $res, $cancel; $($rest)*);
     };
     ($op:ident, $cx:ident, $tasks:ident, $cur:ident, $res:ident, $cancel:ident; B $($rest:tt)*) => {
         $cur = 1;
-        mt::CUR = $tasks[1];
+        mt::G.cur = $tasks[1];
         steps!($op, $cx, $tasks, $cur, $res, $cancel; $($rest)*);
     };
     ($op:ident, $cx:ident, $tasks:ident, $cur:ident, $res:ident, $cancel:ident; C $($rest:tt)*) => {
@@ -265,10 +268,10 @@ macro_rules! scenario {
         scenario!(@run tasks, va, vb; $($script)*);
     }};
     (@run $tasks:ident, $va:ident, $vb:expr; $($script:tt)*) => {{
-        mt::CLONE_DISTINCT = kani::any();
+        mt::G.clone_distinct = kani::any();
         #[allow(unused_mut, unused_assignments)]
         let mut cur: usize = 0;
-        mt::CUR = $tasks[0];
+        mt::G.cur = $tasks[0];
 
         H.waker_clones = 1; // the harness's own reference
         let waker = Waker::from_raw(RawWaker::new(core::ptr::null(), &WAKER_VT));
@@ -287,8 +290,8 @@ macro_rules! scenario {
             }
             // dropped here
         }
-        mt::OP_ALIVE = false;
-        assert!(mt::CUR == $tasks[cur], "wasip3_task_set cell not restored");
+        mt::G.op_alive = false;
+        assert!(mt::G.cur == $tasks[cur], "wasip3_task_set cell not restored");
         drop(waker);
         finish(result, cancelled, $va, $vb);
     }};
@@ -361,7 +364,7 @@ fn cov_p() {
         kani::cover!(H.n_host_codes == 1 && H.resolved, "completed by start");
         kani::cover!(H.cancel_calls == 1 && (H.seq_host & 3) == CANCELLED, "cancel won");
         kani::cover!(H.cancel_calls == 1 && (H.seq_host & 3) == DONE, "cancel lost");
-        kani::cover!(mt::L[0].clones_made == 1 && mt::CLONE_DISTINCT, "v2 task, fresh-pointer clone");
+        kani::cover!(mt::L[0].clones_made == 1 && mt::G.clone_distinct, "v2 task, fresh-pointer clone");
         kani::cover!(mt::L[0].n_register == 1 && mt::L[0].clones_made == 0, "v1 task");
     }
 }
